@@ -263,6 +263,11 @@ pub struct Env {
     pub mmu: Option<Box<SoftMmu>>,
     /// page faults resolved by the software MMU during the last mapper call
     pub last_pf: std::cell::RefCell<Vec<PfEvent>>,
+    /// properties whose violation ends the history (the property the command is about); violations of other
+    /// properties de-synchronise the model: the history goes on with the model-independent monitors only
+    pub focus: Vec<&'static str>,
+    pub desynced: bool,
+    pub step_props: std::cell::RefCell<Vec<String>>,
 }
 
 macro_rules! with_mapper {
@@ -432,6 +437,9 @@ pub fn new_env(kind: Kind, r: &mut Rng, nframes: usize) -> Env {
         #[cfg(not(miri))]
         mmu,
         last_pf: std::cell::RefCell::new(Vec::new()),
+        focus: Vec::new(),
+        desynced: false,
+        step_props: std::cell::RefCell::new(Vec::new()),
     }
 }
 
@@ -483,8 +491,8 @@ fn gen_leaf_flags(r: &mut Rng, lvl: u8) -> u64 {
     for _ in 0..r.below(4) {
         f |= *r.pick(&LEAF_OPT);
     }
-    if lvl == 1 && r.chance(1, 10) {
-        f |= PS; // PAT bit of a 4 KiB entry
+    if r.chance(1, 10) {
+        f |= PS; // PAT bit of a 4 KiB entry; for huge pages the caller may pass HUGE_PAGE itself (e.g. the flags translate() reported)
     }
     if r.chance(1, 30) {
         f = (r.next() & FLAGS & !PS) | P;
@@ -595,6 +603,7 @@ fn viol(rep: &mut Report, env: &Env, prop: &str, sig: String, op: &Op, extra: Ve
     let h = &env.history;
     let tail: Vec<J> = h[h.len().saturating_sub(30)..].to_vec();
     kv.push(("history_tail", J::A(tail)));
+    env.step_props.borrow_mut().push(prop.to_string());
     rep.violation_for(prop, &sig, J::obj(kv));
 }
 
@@ -703,6 +712,105 @@ pub struct Monitors {
 
 /// run one operation under all monitors. Returns (outcome, state class, any violation seen)
 pub fn step(env: &mut Env, op: &Op, fail: Fail, rep: &mut Report, r: &mut Rng, mon: &Monitors) -> StepResult {
+    env.step_props.borrow_mut().clear();
+    if env.desynced {
+        return step_desynced(env, op, rep, r, mon);
+    }
+    let mut res = step_synced(env, op, fail, rep, r, mon);
+    if res.violated {
+        let hit_focus = env.focus.is_empty() || env.step_props.borrow().iter().any(|p| env.focus.contains(&p.as_str()));
+        if !hit_focus {
+            // a property other than the one under examination was violated: the model no longer describes the tables,
+            // but the model-independent monitors (byte diff, allocator roles, frame_to_pointer, software-MMU log,
+            // clean-up clauses, translate-vs-walk) stay meaningful, so the history goes on with those
+            env.desynced = true;
+            res.violated = false;
+            rep.count("histories_desynced_by_other_property", 1);
+        }
+    }
+    res
+}
+
+/// model-independent monitors only (after a violation of another property de-synchronised the model)
+fn step_desynced(env: &mut Env, op: &Op, rep: &mut Report, r: &mut Rng, mon: &Monitors) -> StepResult {
+    let st: &mut State = env.arena.st();
+    st.begin_call();
+    st.fail_at = None;
+    let pre_snap = if mon.bytediff { Some(st.snapshot()) } else { None };
+    let root = env.arena.root_phys();
+    let is_clean = matches!(op, Op::CleanUp | Op::CleanRange { .. });
+    let pre_dump = hwwalk::dump_skip(st, root, env.rec);
+    env.last_pf.borrow_mut().clear();
+    env.history.push(op.to_json());
+    let out = env.exec(op);
+    rep.eval();
+    let opn = op.name();
+    let kname = env.kind.name();
+    let st: &mut State = env.arena.st();
+    let cbs: Vec<(String, String, String)> = st.callback_violations.drain(..).collect();
+    for (prop, sig, det) in cbs {
+        viol(rep, env, &prop, format!("{}|{}|{}", kname, opn, sig), op, vec![("detail", J::s(det))]);
+    }
+    let st: &mut State = env.arena.st();
+    let log = st.log.clone();
+    let nreq = log.iter().filter(|e| !e.dealloc).count();
+    let ndealloc = log.iter().filter(|e| e.dealloc).count();
+    if !is_clean && ndealloc > 0 {
+        viol(rep, env, "C09", format!("{}|{}|deallocated-frames-outside-clean_up", kname, opn), op, vec![]);
+    }
+    if !matches!(op, Op::Map { .. } | Op::IdentityMap { .. }) && nreq > 0 {
+        viol(rep, env, "C09", format!("{}|{}|allocation-request-by-non-map-operation", kname, opn), op, vec![]);
+    }
+    let lvl_max = match op {
+        Op::Map { lvl, .. } | Op::IdentityMap { lvl, .. } => 4 - *lvl as usize,
+        _ => 0,
+    };
+    if nreq > lvl_max && matches!(op, Op::Map { .. } | Op::IdentityMap { .. }) {
+        viol(rep, env, "C09", format!("{}|{}|more-allocation-requests-than-table-levels", kname, opn), op, vec![("requests", J::U(nreq as u64))]);
+    }
+    let st: &mut State = env.arena.st();
+    let post = hwwalk::dump_skip(st, root, env.rec);
+    if is_clean {
+        check_cleanup(env, op, &pre_dump, &post, &log, rep);
+    }
+    if let Some(snap) = pre_snap {
+        let st: &mut State = env.arena.st();
+        for i in 0..st.n() {
+            if st.poisoned_this_call.contains(&i) {
+                continue;
+            }
+            let ph = st.phys[i];
+            if post.tables.contains_key(&ph) || pre_dump.tables.contains_key(&ph) {
+                continue;
+            }
+            if (0..512).any(|s| st.read(i, s) != snap[i * 512 + s]) {
+                let role = st.role[i];
+                viol(rep, env, "C09", format!("{}|{}|modified-non-table-memory|{:?}-frame", kname, opn, role), op, vec![("frame", J::hex(ph)), ("note", J::s("model de-synchronised earlier in this history by a violation of another property"))]);
+                break;
+            }
+        }
+    }
+    let st: &mut State = env.arena.st();
+    let bad: Vec<u64> = st.f2p_log.iter().filter(|x| !x.1).map(|x| x.0).collect();
+    if !bad.is_empty() {
+        viol(rep, env, "C09", format!("{}|{}|desynced|frame_to_pointer-for-non-table-frame", kname, opn), op, vec![("frame", J::hex(bad[0]))]);
+    }
+    if env.kind == Kind::Recursive {
+        let log: Vec<PfEvent> = env.last_pf.borrow_mut().drain(..).collect();
+        for e in log.iter() {
+            if !e.is_table {
+                viol(rep, env, "C09", format!("{}|{}|desynced|recursive-access-reached-non-table-memory", kname, opn), op, vec![("va", J::hex(e.va)), ("reached_frame", J::hex(e.phys))]);
+                break;
+            }
+        }
+    }
+    let _ = r;
+    rep.class(&format!("{}|{}|desynced|{}", kname, opn, out.short()));
+    let hit_focus = env.step_props.borrow().iter().any(|p| env.focus.contains(&p.as_str()));
+    StepResult { out, class: "desynced".into(), violated: hit_focus }
+}
+
+fn step_synced(env: &mut Env, op: &Op, fail: Fail, rep: &mut Report, r: &mut Rng, mon: &Monitors) -> StepResult {
     let st: &mut State = env.arena.st();
     st.begin_call();
     let avail = st.free_count();
@@ -1183,7 +1291,7 @@ fn check_cleanup(env: &mut Env, op: &Op, pre: &Dump, post: &Dump, log: &[crate::
         }
     }
     // garbage / dangling entries must not appear
-    if !bad && has_garbage(&post.kids) {
+    if !bad && has_garbage(&post.kids) && !has_garbage(&pre.kids) {
         viol(rep, env, "C10", format!("{}|{}|garbage-entry-after-clean-up", kname, opn), op, vec![]);
         bad = true;
     }
@@ -1293,6 +1401,14 @@ fn untouched_violation(pre: &BTreeMap<u16, hwwalk::RNode>, post: &BTreeMap<u16, 
 
 pub fn run_history(kind: Kind, r: &mut Rng, rep: &mut Report, focus: &str, len: usize, nframes: usize, enumerate_faults: bool) {
     let mut env = new_env(kind, r, nframes);
+    env.focus = match focus {
+        "c01" => vec!["C01", "C11"],
+        "c02" => vec!["C02"],
+        "c09" => vec!["C09"],
+        "c10" => vec!["C10"],
+        "c20" => vec!["C20"],
+        _ => Vec::new(),
+    };
     let u = universe(r, env.rec);
     let mon = Monitors { probes: true, bytediff: true };
     rep.count("histories", 1);
